@@ -18,13 +18,13 @@ enum verif_evt_kind { EV_LOAD = 1, EV_STORE, EV_XCHG, EV_CMPXCHG, EV_ADDRET, EV_
 		      EV_MB, EV_RMB, EV_WMB, EV_BARRIER, EV_RELAX, EV_MB_MASTER, EV_MB_SLAVE };
 
 #ifndef VERIF_EVT
-#define VERIF_EVT(kind, addr, mo, val)	do { } while (0)
+#define VERIF_EVT(kind, addr, mo, val)	((void) 0)
 #endif
 #ifndef VERIF_LOAD_HOOK
-#define VERIF_LOAD_HOOK(addr)		do { } while (0)
+#define VERIF_LOAD_HOOK(addr)		((void) 0)
 #endif
 #ifndef VERIF_STORE_HOOK
-#define VERIF_STORE_HOOK(addr, val)	do { } while (0)
+#define VERIF_STORE_HOOK(addr, val)	((void) 0)
 #endif
 #ifndef VERIF_LOAD_RESULT
 #define VERIF_LOAD_RESULT(addr)		(*(addr))
